@@ -249,7 +249,7 @@ def run(F, tier, res):
             okg += 1
         else:
             res.violate('NO-GITCONFIG', 'fn=%s;env-override' % p, 'the file configuration is read without first consulting GIT_CONFIG_PARAMETERS overrides', where=F.bodies[p]['mir']['span']['at'])
-    res.rule('C13.GITCONFIG', ng, 7, 'accessor call sites guarded by `enabled`, the --no-gitconfig switch, env-override-before-file in %d typed accessors' % len(gcg), discharged=okg)
+    res.rule('C13.GITCONFIG', ng, 4, 'accessor call sites guarded by `enabled`, the --no-gitconfig switch, env-override-before-file in %d typed accessors' % len(gcg), discharged=okg)
 
     # ---------- DETERMINISM (E4 restricted to option processing)
     roots = [p for p in F.fn_bodies if p.endswith('::from_args_and_git_config') or p.endswith('::set_options')]
@@ -260,7 +260,7 @@ def run(F, tier, res):
             bad += 1
             res.violate('E4', 'fn=%s;iter=%s;verdict=%s' % (s['fn'], s['callee'].split('::')[-1], s['verdict']),
                         'option processing iterates %s in hash order into an order-sensitive consumer: %s' % (s['recv'], s['why']), where=s['where'])
-    res.rule('C13.E4', len(sites), 4, 'hash iterations reachable from option processing, classified by consumer', discharged=len(sites) - bad,
+    res.rule('C13.E4', len(sites), 0, 'hash iterations reachable from option processing, classified by consumer', discharged=len(sites) - bad,
              samples=['%s: %s' % (s['fn'].split('::')[-1], s['verdict']) for s in sites])
     res.distinct.update(r['rule'] for r in res.rules)
     return res
